@@ -52,6 +52,10 @@ type Descriptor struct {
 	// VoidReturn indicates if the constructor has no valid return values
 	VoidReturn bool
 
+	// aliases lists the descriptors of all interfaces (godi.As) registered by the
+	// same Add call, including this one. They share one constructed instance.
+	aliases []*Descriptor
+
 	// Analysis results cached for performance
 	isFunc         bool
 	isResultObject bool
